@@ -157,7 +157,7 @@ def run_check(pid, tier, replay=None):
             "checker_cmd": "tlc MCEz (exhaustive, 2 leaves) ; tlc -simulate MCEz (4 leaves) ; vh ez cases results",
         }
         C.write_evidence(pid, tier, "model_checking", coverage, time.time() - t0, len(violations),
-                         ["file changes are atomic renames; convergence deadline 3 s per change",
+                         ["file changes are atomic renames; convergence deadline 20 s per change (used up only when a change never shows)",
                           "environment variables are process-global: cases run sequentially inside each worker process"])
         for dv in diverg[:3]:
             print("DIVERGENCE case=%s %s" % (dv["id"], json.dumps(dv["mismatch"])[:200]))
